@@ -271,7 +271,8 @@ def eval_norm(case):
         if fin != fout:
             res.append(("C05/fragment", desc + ": fragment %r -> %r with strip_fragment=False" % (fin, fout)))
     else:
-        routing = L.is_routing_fragment(urlref.split(full)["fragment"] or "")
+        # the routing rule is applied to the *decoded* fragment ('#!%2F' is '#!/', which is not routing)
+        routing = L.is_routing_fragment(urlref.dec(urlref.split(full)["fragment"] or "").decode("utf-8", "replace"))
         if fout != fin and not (fout == b"" and not routing):
             res.append(("C05/fragment", desc + ": fragment %r -> %r (routing=%s) with strip_fragment='except-routing'" % (fin, fout, routing)))
     # unsplit=False view
@@ -452,9 +453,14 @@ def _fuzz_norm(data):
     u = F.text_from_bytes(data[2:])
     o = {k: bool(bits >> i & 1) for i, k in enumerate(N.BOOL_OPTIONS)}
     o["strip_fragment"] = [True, False, "except-routing"][(bits >> 9) % 3]
-    _, _, full = _effective_input(u, dict(o, infer_redirection=False))
-    if not unparseable(full) and F.parseable_url_without_redirection(data[2:]) is None:
-        return None   # parses, but outside the domain the component oracle is sound on (host soup, redirection respelling)
+    try:
+        r, _, full = _effective_input(u, o)
+    except Exception:
+        r, full = u, u
+    if not unparseable(full):
+        # parses: the component oracle is sound only on a sane host, and when no (further) redirection is involved
+        if not F.sane_url(r) or F.parseable_url_without_redirection(r.encode("utf-8", "ignore")) is None or r != CTRL.sub("", u).strip():
+            return None
     return {"kind": "norm", "url": u, "options": o, "quoted": bool(bits >> 11 & 1)}
 
 
